@@ -6,7 +6,7 @@ import json, os, subprocess, sys, tempfile, shutil
 from concurrent.futures import ThreadPoolExecutor
 
 V = os.path.dirname(os.path.dirname(os.path.abspath(__file__)))
-cases = json.load(open(os.path.join(V, "selftest", "cases.json")))
+cases = json.load(open(os.environ.get("VERIF_CASES") or os.path.join(V, "selftest", "cases.json")))
 args = sys.argv[1:]
 par = 1
 if args and args[0] == "-j":
